@@ -6,6 +6,7 @@ fn main() {
     match args.get(1).map(|s| s.as_str()) {
         Some("api") => std::process::exit(api_case(&args[2..])),
         Some("words") => std::process::exit(words_case(&args[2..])),
+        Some("title") => std::process::exit(title_case(&args[2])),
         _ => { eprintln!("usage: replay_wasm api <text>... | words <word>..."); std::process::exit(2) }
     }
 }
@@ -77,5 +78,21 @@ fn words_case(words: &[String]) -> i32 {
         }
     }
     if bad == 0 { println!("ok: custom words behave for {all:?}"); }
+    bad
+}
+
+
+/// The exported `to_title_case`: same length, only letter case changes (apostrophe normalisation aside), idempotent.
+fn title_case(text: &str) -> i32 {
+    let mut bad = 0;
+    for t in [text.to_string(), format!("{text}\n"), format!("a tale\r\nof {text}")] {
+        let out = harper_wasm::to_title_case(t.clone());
+        let a: Vec<char> = t.chars().collect();
+        let b: Vec<char> = out.chars().collect();
+        let fold = |c: char| match c { '\u{2019}' | '\u{2018}' => '\'', c => c.to_lowercase().next().unwrap() };
+        if a.len() != b.len() || a.iter().zip(&b).any(|(x, y)| fold(*x) != fold(*y)) { println!("VIOLATED: to_title_case({t:?}) = {out:?}: more than letter case changed"); bad = 1; }
+        if harper_wasm::to_title_case(out.clone()) != out { println!("VIOLATED: to_title_case is not idempotent on {t:?}"); bad = 1; }
+    }
+    if bad == 0 { println!("ok: to_title_case on {text:?}"); }
     bad
 }
